@@ -2,7 +2,8 @@
 (***************************************************************************)
 (* Trace validation for C13.  A case is one save of the real library:      *)
 (*   Begin   instance, payload volume of a fault-free save, was there a    *)
-(*           destination, the fault that was set up                        *)
+(*           destination, was there a left-over temporary file (tmp0 =     *)
+(*           "stale" with tmp0len junk bytes), the fault that was set up   *)
 (*   Sys     one system call of the save on a file of the destination      *)
 (*           directory, projected one-to-one from the strace log by        *)
 (*           pydec/strace_events.py (runs of complete writes to one file   *)
@@ -41,8 +42,8 @@ ClassOf(f, c) ==
   CASE f.k = "absent" -> "absent"
     [] f.k = "old"    -> "old"
     [] f.k = "dir"    -> "other"
-    [] f.k = "new" /\ f.n = c.size -> "new"
-    [] f.k = "new" /\ f.n < c.size /\ SeqInst(c) -> "prefix"
+    [] f.k = "new" /\ f.n = c.size /\ f.junk = 0 -> "new"
+    [] f.k = "new" /\ f.n < c.size /\ f.junk = 0 /\ SeqInst(c) -> "prefix"
     [] OTHER -> "other"
 TmpClassOf(f) == IF f.k = "absent" THEN "absent" ELSE IF f.k = "dir" THEN "dir" ELSE "present"
 
@@ -51,7 +52,9 @@ Files == {"dest", "tmp", "x"}
 (* the disk after a logged system call *)
 PostSys(d, e) ==
   IF e.f \notin Files \/ e.res = "err" THEN d
-  ELSE CASE e.call = "open"   -> IF e.wr /\ (e.trunc \/ (e.creat /\ d[e.f].k = "absent")) THEN PostCreate(d, e.f) ELSE d
+  ELSE CASE e.call = "open"   -> IF e.wr /\ e.trunc THEN PostCreate(d, e.f)
+                                 ELSE IF e.wr THEN PostOpenKeep(d, e.f)      \* no O_TRUNC: existing bytes stay
+                                 ELSE d
          [] e.call = "write"  -> PostWrite(d, e.f, e.m)
          [] e.call = "rename" -> IF e.g \in Files THEN PostRenameG(d, e.f, e.g) ELSE PostUnlink(d, e.f)
          [] e.call = "unlink" -> PostUnlink(d, e.f)
@@ -121,7 +124,7 @@ FinalStep(e) ==
               wt == TmpClassOf(disk.tmp)
               ok == /\ e.dest = wd /\ e.tmp = wt
                     /\ (wd = "prefix" => e.destlen = disk.dest.n)
-                    /\ (disk.tmp.k = "new" /\ SeqInst(cfg)) => e.tmplen = disk.tmp.n
+                    /\ (disk.tmp.k \in {"new", "stale"} /\ SeqInst(cfg)) => e.tmplen = disk.tmp.n + disk.tmp.junk
           IN IF ok THEN TRUE
              ELSE Mismatch(l, <<"impl", "final state", cfg.inst, "destination expected", wd, disk.dest.n, "observed", e.dest,
                                 e.destlen, "temporary expected", wt, disk.tmp.n, "observed", e.tmp, e.tmplen>>)
@@ -132,7 +135,8 @@ FinalStep(e) ==
                ELSE Mismatch(l, <<"impl", "NeverTorn", cfg.inst, "after a kill the destination is", e.dest, e.destlen>>)
 
 GenOk(e) ==
-  CASE e.a = "Begin" -> e.size > 0 /\ e.kind \in {"path", "sink"} /\ e.inst \in {"xlsx", "light", "csv", "pw", "pwlight", "setpw"}
+  CASE e.a = "Begin" -> e.size > 0 /\ e.tmp0 \in {"absent", "dir", "stale"} /\ (e.tmp0 = "stale" => e.tmp0len > 0)
+                        /\ e.kind \in {"path", "sink"} /\ e.inst \in {"xlsx", "light", "csv", "pw", "pwlight", "setpw"}
     [] e.a = "Sys" -> pc = "run" /\ e.call \in {"open", "write", "rename", "unlink", "trunc", "close", "sync"}
                       /\ e.res \in {"ok", "short", "err"}
     [] e.a = "SinkWrite" -> pc = "run" /\ cfg.mode = "sink" /\ e.res \in {"ok", "err", "zero", "intr"}
@@ -146,8 +150,9 @@ Step(e) ==
   ELSE CASE e.a = "Begin" ->
               /\ cfg' = [mode |-> e.kind, chunks |-> <<e.size>>, size |-> e.size, existed |-> e.existed,
                          buffered |-> e.inst \in {"xlsx", "light", "csv"}, buildFirst |-> e.inst \in {"pw", "pwlight", "setpw"},
-                         inst |-> e.inst, traced |-> e.traced]
-              /\ disk' = [dest |-> IF e.existed THEN Old ELSE Absent, tmp |-> IF e.tmp0 = "dir" THEN Dir ELSE Absent, x |-> Absent]
+                         inst |-> e.inst, traced |-> e.traced, stale |-> IF e.tmp0 = "stale" THEN e.tmp0len ELSE 0]
+              /\ disk' = [dest |-> IF e.existed THEN Old ELSE Absent,
+                          tmp |-> IF e.tmp0 = "dir" THEN Dir ELSE IF e.tmp0 = "stale" THEN Stale(e.tmp0len) ELSE Absent, x |-> Absent]
               /\ sink' = [got |-> 0, bad |-> FALSE]
               /\ pc' = "run" /\ ret' = "none" /\ werr' = 0 /\ mark' = ""
          [] e.a = "Sys" -> SysStep(e)
@@ -159,7 +164,7 @@ Step(e) ==
          [] e.a = "Final" -> FinalStep(e)
 
 NoCfg == [mode |-> "path", chunks |-> <<1>>, size |-> 1, existed |-> FALSE, buffered |-> TRUE, buildFirst |-> FALSE,
-          inst |-> "xlsx", traced |-> TRUE]
+          inst |-> "xlsx", traced |-> TRUE, stale |-> 0]
 TraceInit == /\ l = 1 /\ werr = 0 /\ mark = ""
              /\ cfg = NoCfg /\ env = [plan |-> [t |-> "any"], calls |-> 0, writes |-> 0]
              /\ disk = [dest |-> Absent, tmp |-> Absent, x |-> Absent] /\ sink = [got |-> 0, bad |-> FALSE]
